@@ -26,6 +26,12 @@ try:
     c01_tls.build_tls(True)
 except Exception as e:   # noqa
     print("note: harness-tls not prebuilt:", str(e)[:300])
+# the plugin side of C15 (growth part): server with feature `plugins`, the logging test plugin, the PHP plugin
+try:
+    import c15_plugins
+    c15_plugins.build_all()
+except Exception as e:   # noqa
+    print("note: plugin artefacts not prebuilt:", str(e)[:300])
 for sd in sorted(specs):
     for f in sorted(glob.glob(os.path.join(ROOT, "spec", sd, "*.tla"))):
         ok, out = vlib.sany(f)
